@@ -169,6 +169,13 @@ def with_attr(name, value, base=Exception):
     return e
 
 
+def with_raising_property(name, exc=RuntimeError):
+    """an exception class on which reading the attribute `name` raises (a property whose getter fails)"""
+    def getter(self):
+        raise exc("reading ." + name + " fails")
+    return type("Raising_" + name, (Exception,), {name: property(getter)})("raising " + name)
+
+
 def exc_palette():
     from graphql import GraphQLError
     odd = [with_attr("extensions", v) for v in (["jpg", "png"], "ext", ("a",), {"s"}, 42, NoBool(), [], 0, {1: 2}, {"k": object()})]
@@ -178,6 +185,8 @@ def exc_palette():
     _node = _parse("{ f }").definitions[0].selection_set.selections[0]
     odd += [with_attr("nodes", (_node,)), with_attr("nodes", (_node, _node)), with_attr("nodes", [_node]), with_attr("nodes", _node), with_attr("nodes", ()),
             with_attr("nodes", (_node, 1))]
+    odd += [with_raising_property(n_, x_) for n_ in ("message", "source", "positions", "nodes", "extensions", "path", "locations", "original_error")
+            for x_ in (RuntimeError, KeyError)]
     for src_v, pos_v in (("abc", ["x"]), ("abc", 5), ("abc", [1, "2"]), ("abc", None), (5, [1]), ("", [0])):
         e = with_attr("source", src_v)
         e.positions = pos_v
